@@ -72,6 +72,12 @@ fn main() {
                     "every sequence of macro operations over the scenario alphabets within the depth / deviation bounds, each executed on the real engine through its JSON-RPC dispatch table; scenarios: {}; a path is non-trivial when it contains a deviation and was observed; distinct = distinct observation digests",
                     sc.iter().map(|s| format!("{} (depth {}, alphabet {:?})", s.name, s.bounds.depth, s.alphabet.iter().map(|m| m.name.clone()).collect::<Vec<_>>())).collect::<Vec<_>>().join("; ")
                 );
+                let (extra_coverage, extra_violations, extra_errors) = if id == "C02" {
+                    let (c, v, e) = props::golden::check();
+                    (Some(c), v, e)
+                } else {
+                    (None, vec![], vec![])
+                };
                 let p = ParentCfg {
                     property: id.to_string(),
                     tier: tier.to_string(),
@@ -87,6 +93,9 @@ fn main() {
                         "release profile with overflow checks off (the shipped arithmetic), panic=unwind so that a panic is observed".into(),
                     ],
                     extra: vec![],
+                    extra_coverage,
+                    extra_violations,
+                    extra_errors,
                     groups: {
                         let mut g: Vec<String> = sc.iter().map(|s| format!("{}/{}", s.network, s.traces)).collect();
                         g.sort();
@@ -123,6 +132,8 @@ fn main() {
             }
         }
         "serve" => wire::serve_main(&args[2..]),
+        "digest" => props::golden::digest_main(&args[2]),
+        "golden-record" => props::golden::record(),
         "rwlock-probe" => props::c11::rwlock_probe_child(),
         "bench" => {
             inst::set_config("regtest", true);
